@@ -59,7 +59,22 @@ let step1 (cfg : gw_cfg) (s : gw_state) (s' : gw_state) (ev : gw_event) (iouts :
       | 10, 1 -> [("C34", "clause3 state=" ^ st)]
       | _ -> []) mf in
   let asleep_cx = " class=asleep-in-connect-exchange" in
-  (tag "C14" (chk_C14 ev os) @ tag "C01" (chk_C01 cfg s ev os) @ tag "C23" (chk_C23 os) @ c24 @ c24m
+  (* C32, the gateway's half: a PUBLISH / SUBSCRIBE of the client with a predefined or short topic ID that is
+     forwarded under another name than the shared configuration gives this client (a C01 failure of such a
+     packet), and a broker message written to the client under a predefined or short ID that does not denote
+     its name for this client (a C02 failure of such a packet) *)
+  let pre_or_short (tit : n) = (let t = int_of_n tit in t = 1 || t = 2) in
+  let ev_pre = (match ev with
+      | EvSn dg -> (match read_dgram dg with
+          | Ok (Publish (_, _, _, tit, _, _, _)) | Ok (Subscribe (_, _, tit, _, _, _)) -> pre_or_short tit
+          | _ -> false)
+      | _ -> false) in
+  let out_pre = List.exists (fun o -> match o with
+      | ObSn (_, dg) -> (match read_dgram dg with Ok (Publish (_, _, _, tit, _, _, _)) -> pre_or_short tit | _ -> false)
+      | _ -> false) os in
+  let c01 = chk_C01 cfg s ev os and c02 = chk_C02 cfg s s' ev os in
+  let c32 = (if ev_pre && c01 <> [] then [("C32", "clause1")] else []) @ (if out_pre && c02 <> [] then [("C32", "clause2")] else []) in
+  (tag "C14" (chk_C14 ev os) @ tag "C01" c01 @ c32 @ tag "C23" (chk_C23 os) @ c24 @ c24m
    @ tag "C03" (chk_C03 cfg s ev os)
    @ tagc "C04" (if cid_changed then " class=client-id-changed" else "") (chk_C04 cfg s ev os)
    @ tag "C07" (chk_C07 cfg s ev os)
@@ -68,7 +83,7 @@ let step1 (cfg : gw_cfg) (s : gw_state) (s' : gw_state) (ev : gw_event) (iouts :
       WILL*REQ: the per-step clause of C09 cannot attribute it (C11 checks the flush, see DESIGN.md) *)
    @ (if c09_excluded cfg s ev then [] else tag "C09" (chk_C09 cfg s ev os))
    @ tag "C11" (chk_C11 cfg s ev os)
-   @ tag "C02" (chk_C02 cfg s s' ev os) @ tag "C16" (chk_C16 cfg s ev os) @ mfs
+   @ tag "C02" c02 @ tag "C16" (chk_C16 cfg s ev os) @ mfs
    @ List.map (fun c -> let c = int_of_n c in
                 ("C06", if c < 10 then Printf.sprintf "clause%d class=same-id-both-directions" c
                         else if c > 20 then Printf.sprintf "clause%d class=superseded-client-exchange" (c - 20)
